@@ -234,6 +234,7 @@ def engine_channels(run):
     run.check(len(text) == 1, "E1", h.qual + "::text", "text is kept",
               "element text is no longer read (unconditionally)", h.loc())
     # SamlBase reader: known -> member, else -> ExtensionContainer version
+    redesigned = set()
     for meth, table, key in (
             ("_convert_element_tree_to_member", "c_children", "child_tree.tag"),
             ("_convert_element_attribute_to_member", "c_attributes",
@@ -241,6 +242,17 @@ def engine_channels(run):
         fi = m.func("SamlBase." + meth)
         cfg = cfg_of(fi, m)
         member = Q("%s in self.__class__.%s" % (key, table))
+        if table not in unparse(fi.node):
+            # the reader no longer consults the generated table itself (a
+            # derived lookup structure): the membership rules below are written
+            # for the table and decide nothing about it - undecided, not a
+            # violation; E7 and the table rules still apply
+            redesigned.add(meth)
+            run.undecided("E1", fi.qual + "::reader-form",
+                          "%s does not consult %s directly; the known/unknown "
+                          "split of this form is not decided" % (meth, table),
+                          fi.loc())
+            continue
         fb = [nd for nd, c in cfg.call_nodes(meth)
               if attr_chain(c.func) in ("ExtensionContainer." + meth,
                                         "super()." + meth)
@@ -269,6 +281,8 @@ def engine_channels(run):
                   "%s is re-bound before it is looked up / stored: content "
                   "read under one name is kept under another" % rebound,
                   fi.loc())
+    if redesigned:
+        return
     fi = m.func("SamlBase._convert_element_tree_to_member")
     cfg = cfg_of(fi, m)
     entry = "self.__class__.c_children[child_tree.tag]"
@@ -474,6 +488,113 @@ def e6_foreign_writer(run):
               "written", fi.loc())
 
 
+_CTL_E7 = """
+class Base(object):
+    c_children = {}
+
+    @classmethod
+    def table(cls):
+        try:
+            return cls._table
+        except AttributeError:
+            cls._table = dict(cls.c_children)
+            return cls._table
+
+    @classmethod
+    def own_table(cls):
+        try:
+            return cls.__dict__["_own"]
+        except KeyError:
+            cls._own = dict(cls.c_children)
+            return cls._own
+"""
+
+
+def per_class_caches(model, modules):
+    """`cls.X = ...` / `self.__class__.X = ...` / `type(self).X = ...` inside a
+    method: something computed once per class and kept on the class.  Every
+    read of that name through ordinary attribute lookup (cls.X, self.X,
+    getattr(cls, "X"), hasattr) also finds a BASE class's value - the derived
+    class, whose tables differ, is then served the base's.  Reads through the
+    class's own namespace (cls.__dict__, vars(cls)) are exact.
+    -> [(FuncInfo, node, attr)] inheriting reads."""
+    out = []
+    for q, fi in sorted(model.funcs.items()):
+        short = fi.module[len(model.pkg) + 1:] if fi.module != model.pkg else ""
+        if short not in modules or not fi.cls:
+            continue
+        roots = {"cls", "self.__class__", "type(self)"}
+        kept = set()
+        for x in ast.walk(fi.node):
+            tg = x.targets if isinstance(x, ast.Assign) else (
+                [x.target] if isinstance(x, ast.AugAssign) else [])
+            for t in tg:
+                if isinstance(t, ast.Attribute) and unparse(t.value) in roots:
+                    kept.add(t.attr)
+            if isinstance(x, ast.Call) and call_name(x) == "setattr" and \
+                    len(x.args) == 3 and unparse(x.args[0]) in roots and \
+                    isinstance(x.args[1], ast.Constant):
+                kept.add(x.args[1].value)
+        if not kept:
+            continue
+        # reads that follow an assignment of the same name in the same block
+        # see the class's own value
+        own = set()
+        for blk in ast.walk(fi.node):
+            for fld in ("body", "orelse", "finalbody"):
+                seq = getattr(blk, fld, None)
+                if not isinstance(seq, list):
+                    continue
+                done = set()
+                for st in seq:
+                    for x in ast.walk(st):
+                        if isinstance(x, ast.Attribute) and \
+                                isinstance(x.ctx, ast.Load) and x.attr in done:
+                            own.add(id(x))
+                    if isinstance(st, ast.Assign):
+                        for t in st.targets:
+                            if isinstance(t, ast.Attribute) and \
+                                    unparse(t.value) in roots:
+                                done.add(t.attr)
+        for x in ast.walk(fi.node):
+            if id(x) in own:
+                continue
+            if isinstance(x, ast.Attribute) and isinstance(x.ctx, ast.Load) and \
+                    x.attr in kept and (unparse(x.value) in roots or
+                                        unparse(x.value) == "self"):
+                out.append((fi, x, x.attr))
+            if isinstance(x, ast.Call) and call_name(x) in ("getattr", "hasattr") \
+                    and len(x.args) >= 2 and isinstance(x.args[1], ast.Constant) \
+                    and x.args[1].value in kept and \
+                    (unparse(x.args[0]) in roots or unparse(x.args[0]) == "self"):
+                out.append((fi, x, x.args[1].value))
+    return out
+
+
+def e7_per_class_cache(run):
+    run.rule("E7", "whatever the element engine computes once per class and "
+             "keeps on the class is read back through the class's own "
+             "namespace: ordinary attribute lookup would hand a derived class "
+             "(whose child/attribute tables differ) the table of a base class "
+             "parsed earlier, and its own children would turn into extension "
+             "content")
+    from ..common_rules import _control_model
+    mm = _control_model(_CTL_E7)
+    got = sorted({(fi.name, a) for fi, x, a in per_class_caches(mm, {"ctl"})})
+    run.require(got == [("table", "_table")], "E7 positive control: the "
+                "inherited per-class cache of the embedded example is not "
+                "flagged (or its exact twin is)")
+    hits = per_class_caches(run.model, {"", "saml2_tophat"})
+    for fi, x, a in hits:
+        run.violated("E7", "%s::%s" % (fi.qual, norm_text(x)[:60]),
+                     "`%s` is kept on the class and read back by attribute "
+                     "lookup: a subclass that has not been through here yet "
+                     "gets its base class's value" % a, fi.loc(x))
+    run.holds("E7", "per-class-caches", "%d inheriting reads of per-class "
+              "caches in the element engine (positive control flagged, exact "
+              "twin silent)" % len(hits), "")
+
+
 def check(run):
     run.explanation = (
         "C12: exhaustive agreement of the generated tables for all schema "
@@ -494,6 +615,7 @@ def check(run):
     engine_channels(run)
     e4_foreign_content(run)
     e6_foreign_writer(run)
+    e7_per_class_cache(run)
     from ..common_rules import shared_state_rule
     shared_state_rule(run, "E5", {"", "saml2_tophat", "extension_elements_to_elements"},
                       "parsing / serialising one element")
